@@ -371,6 +371,32 @@ def motif_unnested_ctx(rng, ctxs=None):
             "faults": {"items": {}, "flushes": {}, "ctx": {}}, "prio": gen_prio(rng, kinds)}
 
 
+def motif_base_hook_fault(rng):
+    """A task holds an override and, inside it, a context whose pause() or resume() raises a
+    BaseException (not an Exception) at a task switch; the override entered outside that context
+    must be undone all the same."""
+    kinds = rng.randint(1, 2)
+
+    def items(m):
+        return [["y", ["item", rng.randint(0, kinds - 1), rng.randint(0, 5)]] for _ in range(m)]
+    ov = rng.choice([["sv", 0, 7], ["sv", 1, 8], ["attr", 9]])
+    inner = [["with", ["ctx"], items(rng.randint(2, 3))]]
+    if rng.random() < 0.4:
+        inner = [["with", rng.choice([["sv", 1, 5], ["attr", 6]]), inner]]
+    victim = [["with", ov, inner + items(rng.randint(0, 1))]]
+    if rng.random() < 0.5:
+        victim = [["try", victim, "base", items(rng.randint(0, 1))]]
+    sib = items(rng.randint(1, 3))
+    calls = [["call", 1, []], ["call", 2, []]]
+    rng.shuffle(calls)
+    templates = [{"kind": "fn", "steps": [["y", [rng.choice(["t", "l"]), calls]]]},
+                 {"kind": "fn", "steps": victim}, {"kind": "fn", "steps": sib}]
+    return {"templates": templates, "root": {"tmpl": 0, "conv": rng.choice(["call", "value", "wrapped"])},
+            "kinds": kinds, "svs": 2, "yield_only": True, "reentry": False, "ctx_fault": True,
+            "faults": {"items": {}, "flushes": {}, "ctx": {"#1": [rng.choice(["pause", "resume"]), 2, "base"]}},
+            "prio": gen_prio(rng, kinds)}
+
+
 def motif_aio_inside_task(rng):
     """A task calls asyncio.run(fn.asyncio()) from its synchronous code (fn uses a context), then
     goes on through contexts and suspensions of its own, next to a sibling task."""
